@@ -14,7 +14,12 @@ import numpy as np
 from . import shim
 from .gen import Config, grow_blob
 
+EDIT_KINDS = ("add_node", "delete_node", "add_edge", "delete_edge", "swap", "update_attrs",
+              "paint")
+
 DEFAULT_WEIGHTS = {
+    "rescale": 0,
+    "features": 0,
     "scenario": 0,
     "prim_seg": 0,
     "ctrl": 0,
@@ -181,6 +186,14 @@ class OpGen:
             op["edge_as"] = "list"
         if op.get("op") in ("add_node", "update_attrs") and self.rng.random() < 0.25:
             op["caller_reuses_dict"] = True
+        if op.get("op") == "add_node" and not self.cfg.seg and self.rng.random() < 0.15:
+            # the application runs with warnings turned into errors: the add whose requested
+            # track id is taken at that frame warns in its validation phase, so it raises
+            # there and must change nothing. (Only without a label image: the measurement
+            # annotators also warn from the middle of primitive edits - "cannot find label
+            # ..." while the caller's stroke is half processed - and escalating those is a
+            # fault injected into an edit, not a refusal by a validation step.)
+            op["warnings_as_errors"] = True
         return op
 
     def iou_key(self, tracks):
@@ -671,6 +684,25 @@ class OpGen:
             out = [o + (i,) for o in out for i in r]
         return out
 
+    toggle_lineage = False  # opt-in: also switch the lineage feature off / on alone
+
+    def gen_features(self, tracks):
+        """Default feature switching (sub-classes refine it): one toggleable key off, or on
+        with recomputation."""
+        rng = self.rng
+        ks = self.toggleable(tracks)
+        lk = tracks.features.lineage_key
+        if self.toggle_lineage and rng.random() < 0.25:
+            if lk in tracks.annotators.features:
+                return {"op": "features", "disable": [lk]}
+            return {"op": "features", "enable": [lk], "recompute": True}
+        if not ks:
+            return None
+        k = rng.choice(ks)
+        if k in tracks.annotators.features and rng.random() < 0.6:
+            return {"op": "features", "disable": [k]}
+        return {"op": "features", "enable": [k], "recompute": True}
+
     def gen_undo(self, tracks):
         if self.rng.random() < 0.12:
             return {"op": "undo", "via": "controller"}
@@ -823,7 +855,7 @@ def _pixels_tuple(t, cells):
 def named_of(tracks, op: dict) -> dict:
     """Nodes and track ids an op names (for the frame clauses of C04/C05)."""
     k = op["op"]
-    if k == "reload":
+    if k in ("reload", "rescale"):
         return {"nodes": set(), "tids": set()}
     nodes: set[int] = set()
     tids: set[int] = set()
@@ -895,6 +927,8 @@ def execute_inner(tracks, op: dict) -> Outcome:
     try:
         with warnings.catch_warnings():
             warnings.simplefilter("ignore")
+            if op.get("warnings_as_errors"):
+                warnings.simplefilter("error", UserWarning)
             if k == "add_node":
                 attrs: dict[str, Any] = {}
                 if op.get("caller_reuses_dict"):
@@ -1059,6 +1093,16 @@ def execute_inner(tracks, op: dict) -> Outcome:
                 else:
                     a = UserUpdateSegmentation(tracks, I(label), updated, I(op["track_id"]),
                                                force=op.get("force", False))
+            elif k == "rescale":
+                tracks.scale = list(op["scale"])
+                from funtracks.annotators import RegionpropsAnnotator
+
+                ann = next((a_ for a_ in tracks.annotators
+                            if isinstance(a_, RegionpropsAnnotator)), None)
+                on = list(ann.features) if ann is not None else []
+                if on:
+                    tracks.enable_features(on, recompute=True)
+                return Outcome(ok=True, ret="rescale", info=info)
             elif k == "features":
                 if op.get("enable"):
                     tracks.enable_features(list(op["enable"]),
